@@ -13,7 +13,8 @@ upstreams in list order and the theorems show the result does not depend on that
 order of lists that the code itself leaves unsorted; the harness compares those sorted).
 
 Go panics are explicit outcomes (`Except Fault`). The places where the code on the unchanged tree
-can panic are guarded by the switches of `Fixes`; the checked tree is modelled by `Fixes.all`.
+can panic are guarded by the switches of `Fixes`; the checked tree is modelled by `Fixes.tree` (= `Fixes.all` with the
+switch of the reverted F58 off), `Fixes.all` is the tree plus the documented proposal F58.
 -/
 import Nsq.Model.Latency
 
@@ -25,7 +26,9 @@ inductive Fault
   | nilMapWrite (site : String)
 deriving DecidableEq, Repr
 
-/-- Which guards the tree has. `all` = the tree with the proposed fixes. -/
+/-- Which guards a tree has. `tree` = /repo as committed; `all` = `tree` + the proposal F58 (committed as 783e91a, then
+REVERTED by 338c8a6: it turned nsqlookupd's ordinary `404 TOPIC_NOT_FOUND` into permanent warnings and, with a single
+nsqlookupd, into a 502 of the whole listing). -/
 structure Fixes where
   tombBounds   : Bool   -- Producer.UnmarshalJSON checks `i < len(tombstones)`            (F4)
   nilElems     : Bool   -- null producers / topics / channels / clients are skipped
@@ -33,10 +36,12 @@ structure Fixes where
   chanNotFound : Bool   -- channelHandler answers 404 when no node reports the channel
   nilPct       : Bool := true   -- E2eProcessingLatencyAggregate.UnmarshalJSON drops null percentile entries (F53)
   clearNodes   : Bool := true   -- GetNSQDStats discards a `nodes` member sent by the upstream (F54)
-  inactiveErrs : Bool := true   -- topicsHandler `?inactive=true` reports the errors of its per-topic fetches (F58)
+  inactiveErrs : Bool := true   -- topicsHandler `?inactive=true` reports the errors of its per-topic fetches (F58: reverted, NOT in /repo)
 deriving DecidableEq, Repr
 
 def Fixes.all : Fixes := ⟨true, true, true, true, true, true, true⟩
+/-- the committed tree: every guard except the one of the reverted F58 (tie `Tie.AdminAgg.topics_inactive_discards_errors`) -/
+def Fixes.tree : Fixes := { Fixes.all with inactiveErrs := false }
 def Fixes.unfixed : Fixes := ⟨false, false, false, false, false, false, false⟩
 
 /-! ### What the upstreams say -/
